@@ -111,3 +111,16 @@ def callsites(fn, pred):
         if pred(c) or pred(c0):
             out.append((bi, t))
     return out
+
+
+def return_expr_single_path_allow(fn):
+    """Return expression of a function whose only branching is overflow/bounds asserts (single normal path)."""
+    R = X.Rec(fn)
+    rets = fn.exits()
+    if len(rets) != 1:
+        return None
+    d = fn.defs().get(0, [])
+    if len(d) == 1:
+        bi, si, x = d[0]
+        return R.call(x) if si == 'term' else R.rvalue(x)
+    return None
